@@ -723,6 +723,7 @@ func (r *SuRecord) getSpecial(key string) Value {
 func (r *SuRecord) callRule(th *Thread, key string) Value {
 	// this needs to be done first
 	// to handle non-rule fields that are set to invalid by invalidate
+	invalid := r.invalid[key]
 	delete(r.invalid, key)
 	rule := r.getRule(th, key)
 	if rule == nil || th.rules.has(r, key) {
@@ -731,8 +732,13 @@ func (r *SuRecord) callRule(th *Thread, key string) Value {
 	r.ensureDeps()
 	r.trace("call rule", key)
 	val := r.catchRule(th, rule, key)
-	if val != nil && !r.ob.readonly {
-		r.ob.set(SuStr(key), val)
+	if val != nil {
+		if !r.ob.readonly {
+			r.ob.set(SuStr(key), val)
+		} else if invalid {
+			// can't save the result so the old value is still invalid
+			r.invalid[key] = true
+		}
 	}
 	return val
 }
